@@ -799,6 +799,49 @@ func (e *aEnv) step(st aStep, idx int) (res aRes) {
 		res = r
 		res.Names = h.log
 		res.Par = [][]aRes{h.out}
+	case "timerrace":
+		// N upload sessions of repository Repo, each opened and then cancelled (or completed) at the moment the expiry timer of the
+		// session cache fires (Secs = grace period; the cache expires entries after Secs + Secs/10): the end of the only open session
+		// races the timer's prune
+		grace := time.Duration(st.Secs * float64(time.Second))
+		maxAge := grace + grace/10
+		for i := 0; i < st.N; i++ {
+			repo, err := e.s.store.RepoGet(context.Background(), st.Repo)
+			if err != nil {
+				res.Err = err.Error()
+				break
+			}
+			start := time.Now()
+			bc, _, err := repo.BlobCreate()
+			repo.Done()
+			if err != nil {
+				res.Err = err.Error()
+				break
+			}
+			off := time.Duration(i%40) * time.Microsecond
+			for time.Since(start) < maxAge-20*time.Microsecond+off {
+			}
+			done := make(chan struct{})
+			go func() {
+				if i%2 == 0 {
+					_ = bc.Cancel()
+				} else {
+					_, _ = bc.Write([]byte("x"))
+					_ = bc.Close()
+				}
+				close(done)
+			}()
+			select {
+			case <-done:
+			case <-time.After(3 * time.Second):
+				res.Err = fmt.Sprintf("HANG: the end of upload session %d did not return within 3s", i)
+			}
+			if res.Err != "" {
+				res.Err += "\n" + blockedGoroutines()
+				break
+			}
+			res.N = i + 1
+		}
 	case "refpages":
 		// GET st.Path (a referrers listing), then ask for the pages st.Names of exactly that response: cache=<digest of the body>
 		cur := st
